@@ -1,151 +1,16 @@
 // C07 — equality and ordering are deep, layout-independent and mutually consistent
-#include "../operands.hpp"
-
-namespace multi = boost::multi;
-
-namespace {
-
-using namespace vp::ops;
-
-struct Expect { bool eq, lt, gt; bool empty; };
-Expect expect(Val const& a, Val const& b) { return Expect{m_equal(a, b), m_less(a, b), m_less(b, a), a.n() == 0 || b.n() == 0}; }
-
-#ifndef VP_HAS_GE_ND
-#define VP_HAS_GE_ND 1
-#endif
-
-template<bool Ordered, class A, class B>
-void check_pair(A const& a, B const& b, Expect x, char const* what) {
-	bool const eq = (a == b), ne = (a != b);
-	VP_CHECK(eq == !ne, "cmp/eq_ne_negation", what << ": (a==b)=" << eq << " (a!=b)=" << ne);
-	if(x.empty) { return; }
-	VP_CHECK(eq == x.eq, "cmp/equal", what << ": a==b is " << eq << ", model " << x.eq);
-	VP_CHECK(ne == !x.eq, "cmp/not_equal", what << ": a!=b is " << ne << ", model " << !x.eq);
-	if constexpr(Ordered) {
-		bool const lt = (a < b), le = (a <= b), gt = (a > b);
-		VP_CHECK(lt == x.lt, "cmp/less", what << ": a<b is " << lt << ", model " << x.lt);
-		VP_CHECK(gt == x.gt, "cmp/greater", what << ": a>b is " << gt << ", model " << x.gt);
-		VP_CHECK(le == (x.lt || x.eq), "cmp/less_equal", what << ": a<=b is " << le << ", model " << (x.lt || x.eq));
-#if VP_HAS_GE_ND
-		bool const ge = (a >= b);
-		VP_CHECK(ge == (x.gt || x.eq), "cmp/greater_equal", what << ": a>=b is " << ge << ", model " << (x.gt || x.eq));
-#endif
-		VP_CHECK(static_cast<int>(lt) + static_cast<int>(eq) + static_cast<int>(gt) == 1, "cmp/trichotomy", what << ": a<b=" << lt << " a==b=" << eq << " b<a=" << gt);
-	}
-}
-
-int pattern(long const* t, int D, unsigned salt) { long s = salt; for(int k = 0; k < D; ++k) { s = s*3 + t[k]*(k + 1); } return static_cast<int>(s % 3); }
-
-constexpr long kExt[8] = {1, 2, 3, 2, 1, 3, 4, 0};
-
-template<int D>
-void run_d(vp::Input const& in, vp::Ctx& ctx) {
-	// --- decode operands
-	Val ops[3];
-	long e0[D]; for(int k = 0; k < D; ++k) { e0[k] = kExt[in.head(1 + k) % 8]; }
-	unsigned salt = in.head(10) % 5;
-	for(int o = 0; o < 3; ++o) {
-		long e[D]; for(int k = 0; k < D; ++k) { e[k] = e0[k]; }
-		if(o > 0) {
-			unsigned h = in.head(4 + o);  // 5: operand B, 6: operand C
-			if((h & 1U) != 0) { int dim = static_cast<int>((h >> 1U) % static_cast<unsigned>(D)); long delta = ((h >> 4U) & 1U) != 0 ? 1 : -1; e[dim] = std::max<long>(0, e[dim] + delta); }
-		}
-		ops[o].ext.assign(e, e + D);
-		long n = ops[o].n();
-		ops[o].v.resize(static_cast<std::size_t>(n));
-		if(n > 0) { long t[D] = {}; long i = 0; do { ops[o].v[static_cast<std::size_t>(i++)] = pattern(t, D, salt); } while(next_tuple<D>(e, t)); }
-	}
-	// mutations: record = (operand, position, value, -)
-	for(int k = 0; k < in.nops(); ++k) {
-		auto& o = ops[in.op(k, 0) % 3];
-		if(o.v.empty()) { continue; }
-		std::size_t pos = (in.op(k, 1) & 1U) != 0 ? o.v.size() - 1 - (in.op(k, 1) / 2U) % o.v.size() : (in.op(k, 1) / 2U) % o.v.size();
-		o.v[pos] = in.op(k, 2) % 3;
-	}
-	int ka = in.head(7) % NKINDS, kb = in.head(8) % NKINDS, kc = in.head(9) % NKINDS;
-	auto& t = ctx.desc;
-	t << "D=" << D << " A=" << kind_name[ka]; print(t, ops[0]); t << " B=" << kind_name[kb]; print(t, ops[1]); t << " C=" << kind_name[kc]; print(t, ops[2]);
-	Expect xab = expect(ops[0], ops[1]), xba = expect(ops[1], ops[0]);
-	// --- pair (typed realisations); array<long> only takes part in == / != (mixed element types have no ordering operators)
-	auto ordered_pair = [&](auto const& a, auto const& b) {
-		check_pair<true>(a, b, xab, "a vs b");
-		check_pair<true>(b, a, xba, "b vs a");
-		check_pair<true>(a, a, expect(ops[0], ops[0]), "a vs a");
-	};
-	if(ka == K_CVIEW || kb == K_CVIEW) {
-		int ka2 = ka == K_LONG ? K_ARRAY : ka, kb2 = kb == K_LONG ? K_ARRAY : kb;
-		with_operand<D>(ops[0], ka2, [&](auto const& a) { with_operand<D>(ops[1], kb2, [&](auto const& b) {
-			check_pair<false>(a, b, xab, "a vs b (const element pointer)"); check_pair<false>(b, a, xba, "b vs a (const element pointer)"); }); });
-		ctx.label("pair_const_pointer_view");
-	} else if(ka == K_LONG || kb == K_LONG) {
-		if(ka == K_LONG && kb == K_LONG) {
-			with_operand<D, long>(ops[0], K_ARRAY, [&](auto const& a) { with_operand<D, long>(ops[1], K_VIEW, [&](auto const& b) { ordered_pair(a, b); }); });
-		} else if(ka == K_LONG) {
-			with_operand<D, long>(ops[0], (in.head(11) & 1U) ? K_ARRAY : K_TRANSPOSED, [&](auto const& a) { with_operand<D, int>(ops[1], kb, [&](auto const& b) {
-				check_pair<false>(a, b, xab, "a<long> vs b<int>"); check_pair<false>(b, a, xba, "b<int> vs a<long>"); }); });
-		} else {
-			with_operand<D, int>(ops[0], ka, [&](auto const& a) { with_operand<D, long>(ops[1], (in.head(11) & 1U) ? K_ARRAY : K_PADDED, [&](auto const& b) {
-				check_pair<false>(a, b, xab, "a<int> vs b<long>"); check_pair<false>(b, a, xba, "b<long> vs a<int>"); }); });
-		}
-		ctx.label("pair_mixed_element_type");
-	} else {
-		with_operand<D>(ops[0], ka, [&](auto const& a) { with_operand<D>(ops[1], kb, [&](auto const& b) { ordered_pair(a, b); }); });
-	}
-	// --- triple (all realised as views of different layouts): transitivity, asymmetry, irreflexivity
-	auto vk = [](int k) { return (k == K_ARRAY || k == K_REF || k == K_LONG || k == K_CVIEW) ? static_cast<int>(K_VIEW) : k; };
-	bool const any_empty = ops[0].n() == 0 || ops[1].n() == 0 || ops[2].n() == 0;
-	with_operand<D>(ops[0], vk(ka), [&](auto const& a) { with_operand<D>(ops[1], vk(kb), [&](auto const& b) { with_operand<D>(ops[2], vk(kc), [&](auto const& c) {
-		check_pair<true>(b, c, expect(ops[1], ops[2]), "b vs c");
-		check_pair<true>(a, c, expect(ops[0], ops[2]), "a vs c");
-		if(any_empty) { return; }
-		bool ab = a < b, bc = b < c, ac = a < c, ba = b < a;
-		VP_CHECK(!(a < a) && !(b < b) && !(c < c), "cmp/irreflexive", "x<x holds");
-		VP_CHECK(!(ab && ba), "cmp/asymmetric", "a<b and b<a");
-		VP_CHECK(!(ab && bc) || ac, "cmp/transitive", "a<b and b<c but not a<c");
-		bool eab = a == b, ebc = b == c, eac = a == c;
-		VP_CHECK(!(eab && ebc) || eac, "cmp/eq_transitive", "a==b and b==c but not a==c");
-		VP_CHECK(!(eab && bc) || ac, "cmp/eq_lt_compatible", "a==b and b<c but not a<c");
-	}); }); });
-	bool layouts_differ = vk(ka) != vk(kb);
-	bool same_shape = ops[0].ext == ops[1].ext;
-	ctx.nontrivial = !any_empty && ops[0].n() >= 2 && (layouts_differ || !same_shape);
-	if(any_empty) { ctx.label("some_operand_empty"); }
-	ctx.label(same_shape ? "ab_same_shape" : "ab_different_shape");
-	if(!xab.empty) { ctx.label(xab.eq ? "ab_equal" : (xab.lt ? "ab_less" : "ab_greater")); }
-	ctx.label(layouts_differ ? "ab_layouts_differ" : "ab_layouts_same");
-	static char const* const dl[] = {"D0", "D1", "D2", "D3", "D4"};
-	ctx.label(dl[D]);
-}
-
-// dimensionality 0: one element.  `array<T,0> == array<T,0>` (and !=) was an ambiguous overload on the pinned tree (repaired in /repo, see
-// known_findings.txt): views A() op B() and the arrays themselves for all six operators, and array == element.
-void run_d0(vp::Input const& in, vp::Ctx& ctx) {
-	int va = in.head(1) % 3, vb = in.head(2) % 3, vc = in.head(3) % 3;
-	ctx.desc << "D=0 A=" << va << " B=" << vb << " C=" << vc;
-	multi::array<int, 0> A(va), B(vb), C(vc);
-	Expect x{va == vb, va < vb, vb < va, false};
-	check_pair<true>(A(), B(), x, "A() vs B()");
-	check_pair<true>(std::as_const(A)(), B(), x, "const A() vs B()");
-	VP_CHECK((A < B) == x.lt && (A > B) == x.gt && (A <= B) == (x.lt || x.eq) && (A >= B) == (x.gt || x.eq), "cmp/order0", "0-D arrays: ordering operators disagree with the elements " << va << "," << vb);
-	VP_CHECK((A == vb) == x.eq && (A != vb) == !x.eq, "cmp/equal0_value", "0-D array == element");
-	VP_CHECK((A == B) == x.eq && (A != B) == !x.eq && (std::as_const(A) == B) == x.eq && (B == A) == x.eq, "cmp/equal0_arrays", "0-D arrays: == / != disagree with the elements " << va << "," << vb);
-	VP_CHECK(!((A() < B()) && (B() < C())) || (A() < C()), "cmp/transitive", "0-D transitivity");
-	ctx.nontrivial = va != vb;
-	ctx.label("D0");
-}
-
-}  // namespace
+#include "../c07.hpp"
 
 struct Prop {
 	static constexpr char const* id = "C07";
 	static constexpr int H = 12, R = 3, MAXOPS = 6;
 	static void run(vp::Input const& in, vp::Ctx& ctx) {
 		switch(in.head(0) % 9) {
-			case 8: run_d0(in, ctx); break;
-			case 0: case 4: run_d<1>(in, ctx); break;
-			case 1: case 5: run_d<2>(in, ctx); break;
-			case 2: case 6: run_d<3>(in, ctx); break;
-			default: run_d<4>(in, ctx); break;
+			case 8: vp::c07::run_d0(in, ctx); break;
+			case 0: case 4: vp::c07::run_d<1>(in, ctx); break;
+			case 1: case 5: vp::c07::run_d<2>(in, ctx); break;
+			case 2: case 6: vp::c07::run_d<3>(in, ctx); break;
+			default: vp::c07::run_d<4>(in, ctx); break;
 		}
 	}
 };
